@@ -89,7 +89,7 @@ func altClass(alt string) string {
 func alterSig(t *rapid.T, sig []byte, e *edScalar) (string, []byte) {
 	kinds := []string{"sig-bitflip", "sig-bitflip", "sig-truncate", "sig-append", "sig-empty", "sig-random", "sig-zero-window", "sig-double"}
 	if e != nil {
-		kinds = append(kinds, "sig-S-plus-L", "sig-S-plus-L")
+		kinds = append(kinds, "sig-S-plus-L", "sig-S-plus-L", "sig-S-boundary")
 	}
 	k := rapid.SampledFrom(kinds).Draw(t, "sigalt")
 	o := append([]byte{}, sig...)
@@ -135,6 +135,31 @@ func alterSig(t *rapid.T, sig []byte, e *edScalar) (string, []byte) {
 		return fmt.Sprintf("sig-zero-window@%d/%d", off, w), o
 	case "sig-double":
 		return "sig-double", append(o, sig...)
+	case "sig-S-boundary":
+		// the scalar replaced by an exact boundary value of its range check: 0, 1, L-1, L, L+1, 2L, 2^k, all ones
+		v := new(big.Int)
+		kind := rapid.SampledFrom([]string{"L", "L", "L-1", "L+1", "2L", "0", "1", "max", "2^k"}).Draw(t, "sb")
+		switch kind {
+		case "L":
+			v.Set(e.order)
+		case "L-1":
+			v.Sub(e.order, big.NewInt(1))
+		case "L+1":
+			v.Add(e.order, big.NewInt(1))
+		case "2L":
+			v.Lsh(e.order, 1)
+		case "1":
+			v.SetInt64(1)
+		case "max":
+			v.Sub(new(big.Int).Lsh(big.NewInt(1), uint(8*e.n)), big.NewInt(1))
+		case "2^k":
+			v.Lsh(big.NewInt(1), uint(rapid.IntRange(0, 8*e.n-1).Draw(t, "sbk")))
+		}
+		copy(o[e.off:e.off+e.n], vlib.LE(v, e.n))
+		if bytes.Equal(o, sig) {
+			o[0] ^= 1
+		}
+		return "sig-S-boundary=" + kind, o
 	case "sig-S-plus-L":
 		// S + k·L for every k that still fits the encoding: k = 1 is the classic malleability case,
 		// larger k reach the unused top bits / the last byte of the scalar (k ≥ 4 for Ed448)
@@ -613,7 +638,39 @@ func blsCase[K bls.KeyGroup](t *rapid.T, name string, k K) {
 		return
 	}
 	vfy := func(m, sg []byte) bool { return bls.Verify(pk, m, sg) }
-	switch rapid.SampledFrom([]string{"sig", "sig", "msg", "key", "pkbytes", "identity-key", "identity-sig", "agg", "uncompressed"}).Draw(t, "what") {
+	switch rapid.SampledFrom([]string{"sig", "sig", "msg", "key", "pkbytes", "identity-key", "identity-sig", "agg", "uncompressed", "cofactor"}).Draw(t, "what") {
+	case "cofactor":
+		// signature (or key) in G1 plus a point of the curve outside G1: on the curve, pairing-equivalent,
+		// only the subgroup test tells it apart
+		tag := uint64(rapid.IntRange(0, 1<<20).Draw(t, "cof"))
+		if len(sig) == 48 {
+			comp, unc := addCofactorPoint(sig, tag)
+			if comp == nil {
+				t.Fatalf("harness: cannot build signature + cofactor point")
+			}
+			expectReject(t, sub, "bls-"+name, "sig-plus-cofactor-point(compressed)", vfy, msg, comp, ikm)
+			expectReject(t, sub, "bls-"+name, "sig-plus-cofactor-point(uncompressed)", vfy, msg, unc, ikm)
+			expectReject(t, sub, "bls-"+name, "agg-sig-plus-cofactor-point", func(m, sg []byte) bool {
+				return bls.VerifyAggregate([]*bls.PublicKey[K]{pk}, [][]byte{m}, sg)
+			}, msg, comp, ikm)
+		} else {
+			for _, alt := range func() [][]byte { c, u := addCofactorPoint(pkb, tag); return [][]byte{c, u} }() {
+				if alt == nil {
+					t.Fatalf("harness: cannot build key + cofactor point")
+				}
+				pkA := new(bls.PublicKey[K])
+				if err := pkA.UnmarshalBinary(alt); err != nil {
+					vlib.Class(sub, "pk-plus-cofactor-point-refused-at-decode")
+					vlib.NonTrivial(sub, "", alt)
+					continue
+				}
+				if pkA.Validate() {
+					vlib.Report(t, "C02/accepts-altered/bls-"+name+"/pk-plus-cofactor-point-validates", fmt.Sprintf("public key + point outside G1 decodes and validates: %x", alt))
+					return
+				}
+				expectReject(t, sub, "bls-"+name, "pk-plus-cofactor-point", func(mm, sg []byte) bool { return bls.Verify(pkA, mm, sg) }, msg, sig, alt)
+			}
+		}
 	case "uncompressed":
 		// the uncompressed encoding of the same signature / key: every flag-bit combination other than
 		// the honest one and every other single-bit flip of it must be refused as well
